@@ -289,6 +289,13 @@ def write_evidence(pid, doc):
         json.dump(doc, f, indent=1, default=str)
         f.write("\n")
     os.replace(tmp, path)
+    if doc.get("tier") == "thorough":
+        # keep the deepest run next to the per-change one (evidence/<id>.json is rewritten by every run)
+        tdir = os.path.join(env.VERIF, "evidence", "thorough")
+        os.makedirs(tdir, exist_ok=True)
+        with open(os.path.join(tdir, pid + ".json"), "w") as f:
+            json.dump(doc, f, indent=1, default=str)
+            f.write("\n")
     return path
 
 
